@@ -58,8 +58,8 @@ func genHistory(t *rapid.T) ([]Sign, [3]floors) {
 					tgt++
 				}
 			} else if advancing {
-				src = uint64(m[key].src) + rapid.SampledFrom([]uint64{0, 0, 1, 4}).Draw(t, "srcd")
-				tgt = uint64(m[key].tgt) + rapid.SampledFrom([]uint64{1, 1, 2, 1 << 33}).Draw(t, "tgtd")
+				src = uint64(m[key].src) + rapid.SampledFrom([]uint64{0, 0, 1, 4, 1<<54 + 1}).Draw(t, "srcd")
+				tgt = uint64(m[key].tgt) + rapid.SampledFrom([]uint64{1, 1, 2, 1 << 33, 1<<55 + 1}).Draw(t, "tgtd")
 				if tgt <= src {
 					tgt = src + 1
 				}
@@ -79,7 +79,7 @@ func genHistory(t *rapid.T) ([]Sign, [3]floors) {
 			if m[key].slot < 0 {
 				slot = rapid.Uint64Range(0, 9).Draw(t, "slot0")
 			} else if advancing {
-				slot = uint64(m[key].slot) + rapid.SampledFrom([]uint64{1, 1, 3, 1 << 40}).Draw(t, "slotd")
+				slot = uint64(m[key].slot) + rapid.SampledFrom([]uint64{1, 1, 3, 1 << 40, 1<<57 + 3}).Draw(t, "slotd")
 			} else {
 				slot = uint64(m[key].slot)
 			}
